@@ -596,6 +596,22 @@ pub struct TrainRun {
 }
 
 /// Run the forward / backward / update loop of a real `Model` built from spied layers and a spied optimizer.
+/// The caller's data set: one array per distinct batch, handed out as clones of that array.
+#[derive(Default)]
+pub struct Dataset {
+    held: Vec<(T<f64>, Array)>,
+}
+impl Dataset {
+    pub fn array(&mut self, t: &T<f64>) -> Array {
+        if let Some((_, a)) = self.held.iter().find(|(h, _)| h.dims == t.dims && h.v.iter().map(|x| x.to_bits()).eq(t.v.iter().map(|x| x.to_bits()))) {
+            return a.clone();
+        }
+        let a = arr_t(t);
+        self.held.push((t.clone(), a.clone()));
+        a
+    }
+}
+
 pub fn train_spied(spec: &NetSpec, params: &[T<f64>], iterations: &[Iteration], keep_handles: bool) -> Result<TrainRun, String> {
     let events: Events = Rc::new(RefCell::new(vec![]));
     let late_losses: Rc<RefCell<Vec<(usize, f64)>>> = Rc::new(RefCell::new(vec![]));
@@ -616,6 +632,7 @@ pub fn train_spied(spec: &NetSpec, params: &[T<f64>], iterations: &[Iteration], 
         // a checkpoint (handle clones, as `p.clone()` in user code) is kept only by histories that restore from it
         let wants_checkpoint = iterations.iter().any(|it| it.rebuild.as_ref().map(|rb| !rb.restores.is_empty()).unwrap_or(false));
         let checkpoint: Vec<Array> = if wants_checkpoint { spies.iter_mut().flat_map(|s| s.parameters()).map(|p| (*p).clone()).collect() } else { vec![] };
+        let mut dataset = Dataset::default();
         let mut i = 0;
         while i < iterations.len() {
             if let Some(rb) = &iterations[i].rebuild {
@@ -648,11 +665,12 @@ pub fn train_spied(spec: &NetSpec, params: &[T<f64>], iterations: &[Iteration], 
                 if let Some(x) = &it.abandoned_forward {
                     // the spies' record of the abandoned call is not part of the iteration
                     let n0 = events.borrow().len();
-                    let _ = model.forward(arr_t(x));
+                    let _ = model.forward(dataset.array(x));
                     events.borrow_mut().truncate(n0);
                 }
-                let input = arr_t(&it.input);
-                let target = arr_t(&it.target);
+                // a batch that comes round again is the same array handed in again (`x.clone()`), not a rebuilt one
+                let input = dataset.array(&it.input);
+                let target = dataset.array(&it.target);
                 if keep_handles {
                     keep(&kept, &input, "training-input");
                     keep(&kept, &target, "training-target");
